@@ -50,6 +50,15 @@ CHECKS = {
              'suites, all 2^16 DNSKEY flag words, MySQL words with <= 2 flipped bits): compose succeeds, is accepted '
              'again in full, parses to an equal object and composes to the same bytes.',
         design='§5 C05'),
+    'C07': dict(
+        technique='exhaustive enumeration against an independent reference encoder/decoder (differential oracle)',
+        text='Packets for every payload length 1..35000 x 3 record classes checked against RFC 4253 s6 directly '
+             '(quick: 1..4096 plus windows); RSA/DSS keys over all boundary bit lengths 8k-1/8k/8k+1; KEXINIT with '
+             'every name-list of length <= 3 over a 6-name alphabet in each of the 10 positions and each pair of '
+             'positions; keys, certificates (every option alone and in ordered pairs, principals 0-3, validity '
+             'boundaries, serial boundaries), banner (420 forms) and DH/GEX/disconnect messages: compose == '
+             'reference, parse(reference) == fields.',
+        design='§5 C07'),
     'C10': dict(
         technique='complete enumeration of code spaces through the real decoders and list containers',
         text='All 2^8 / 2^16 codes of all 16 code-point factories, alone and as only / first / second element of '
@@ -97,6 +106,14 @@ CHECKS = {
              '(0-15 thorough) in separate processes and compared by digest; every ordered pair of a 48-object panel '
              'is serialised in one process and compared with a fresh process.',
         design='§5 C14'),
+    'C16': dict(
+        technique='exhaustive enumeration of KEXINIT / key wire forms against reference digests',
+        text='KEXINIT wire forms (built by the reference encoder) with every name-list of length <= 3 in each list '
+             'HASSH reads and every pair of such lists: both HASSH values equal md5 over the wire name-lists; every '
+             'key/certificate within 1-2 deviations of the seeds, RSA keys over boundary bit lengths: SHA-256/SHA-1/MD5 '
+             'fingerprints and known_hosts equal digests/base64 of the reference-built blob; every accepted conformant '
+             'wire form (seeds + single-byte substitutions): fingerprints are digests of the wire bytes.',
+        design='§5 C16'),
     'C17': dict(
         technique='exhaustive explicit-state enumeration (all pairs, triples, permutations) on the real class',
         text='Complete: every ordered pair and triple of all defined versions, every permutation of every '
